@@ -1,5 +1,7 @@
-// Suite "lockup2": directed two-validator histories of the non-voting delegatable lockup account (C12), oracle only.
-// The message-driven `lockup` suite and the Lean model use one validator; what a second validator adds is the ORDER in which
+// Suite "lockup2": directed two-validator histories of the non-voting delegatable lockup account (C12).  The main history is
+// printed in the multi-validator trace format (validators named v0, v1 in the order of their operator address strings) that the
+// Lean suite `lockupmv` reproduces; the further scenarios at the end print oracle lines only.
+// The message-driven `lockup` suite and its Lean model use one validator; what a second validator adds is the ORDER in which
 // `checkUnbondingEntriesMature` walks the per-validator unbonding records (by validator address) — an immature record of an
 // earlier validator must not hide a matured record of a later one.  Script: delegate locked coins to two validators, undelegate
 // from the one that sorts LATER first, then from the other, let only the first unbonding mature (the share-class end-blocker
@@ -10,7 +12,6 @@ package main
 import (
 	"fmt"
 	"math/big"
-	"sort"
 	"strconv"
 	"strings"
 	"time"
@@ -23,7 +24,6 @@ import (
 	nvtypes "github.com/sunriselayer/sunrise/x/accounts/non_voting_delegatable_lockup/v1"
 	sdlock "github.com/sunriselayer/sunrise/x/accounts/self_delegatable_lockup"
 	sdtypes "github.com/sunriselayer/sunrise/x/accounts/self_delegatable_lockup/v1"
-	sctypes "github.com/sunriselayer/sunrise/x/shareclass/types"
 
 	"svh/sim"
 )
@@ -32,21 +32,17 @@ func init() { register("lockup2", suiteLockup2) }
 
 func suiteLockup2(e *Env) {
 	for hI := 0; hI < e.N; hI++ {
-		h, err := lkNewHistVals(e, []int64{100, 80})
+		h, err := lkNewHistMV(e, []int64{100, 80})
 		if err != nil {
 			e.Obs("setup-error %v", err)
 			return
 		}
 		r := e.R
 		c := h.c
-		vals := []string{c.Vals[0].Oper.String(), c.Vals[1].Oper.String()}
-		sort.Strings(vals)
-		first, second := vals[1], vals[0] // undelegate from the later key first
+		first, second := "v1", "v0" // undelegate from the later key first
 		if r.N(4) == 0 {
-			first, second = vals[0], vals[1] // control: the other order
+			first, second = "v0", "v1" // control: the other order
 		}
-		h.extraVals = vals
-		setVal := func(v string) { h.val = v; h.shareDn = sctypes.NonVotingShareTokenDenom(v) }
 		now := c.Time
 		funds := int64(1_000_000 + r.N(900_000_000))
 		start := now.Add(-time.Duration(r.N(20)) * time.Second)
@@ -60,17 +56,13 @@ func suiteLockup2(e *Env) {
 		}
 		x := funds/4 + int64(r.N(int(funds/4)))
 		y := funds/4 + int64(r.N(int(funds/4)))
-		setVal(second)
-		h.exec([]string{"nvDelegate", "a0", "a0", "1", "urise", strconv.FormatInt(x, 10)})
-		setVal(first)
-		h.exec([]string{"nvDelegate", "a0", "a0", "1", "urise", strconv.FormatInt(y, 10)})
+		h.exec([]string{"nvDelegate", "a0", "a0", second, "urise", strconv.FormatInt(x, 10)})
+		h.exec([]string{"nvDelegate", "a0", "a0", first, "urise", strconv.FormatInt(y, 10)})
 		blockTo(c.Time.Add(time.Duration(1+r.N(3)) * time.Second))
-		setVal(first)
-		h.exec([]string{"nvUndelegate", "a0", "a0", "1", "urise", strconv.FormatInt(y/2+int64(r.N(int(y/2))), 10)})
+		h.exec([]string{"nvUndelegate", "a0", "a0", first, "urise", strconv.FormatInt(y/2+int64(r.N(int(y/2))), 10)})
 		t1 := c.Time
 		blockTo(c.Time.Add(time.Duration(3+r.N(8)) * time.Second))
-		setVal(second)
-		h.exec([]string{"nvUndelegate", "a0", "a0", "1", "urise", strconv.FormatInt(x/2+int64(r.N(int(x/2))), 10)})
+		h.exec([]string{"nvUndelegate", "a0", "a0", second, "urise", strconv.FormatInt(x/2+int64(r.N(int(x/2))), 10)})
 		t2 := c.Time
 		// the first unbonding matures (and the end-blocker pays it back), the second is still pending
 		mid := t1.Add(lkUT).Add(time.Duration(1+r.N(1500)) * time.Millisecond)
@@ -84,13 +76,17 @@ func suiteLockup2(e *Env) {
 		if bal.IsPositive() {
 			e.Stat("lockup2.paid_back_before_second_matures")
 		}
-		for _, amt := range []sdkmath.Int{bal, bal.QuoRaw(2), sdkmath.NewInt(int64(1 + r.N(1000)))} {
+		// what the account itself reports as spendable (the paid-back coins are locked: if the query counts them, sending them must still fail)
+		amts := []sdkmath.Int{bal, bal.QuoRaw(2), sdkmath.NewInt(int64(1 + r.N(1000)))}
+		if sp, ok := sdkmath.NewIntFromString(h.info().spend); ok && sp.IsPositive() {
+			amts = append([]sdkmath.Int{sp}, amts...)
+		}
+		for _, amt := range amts {
 			if amt.IsPositive() {
 				h.exec([]string{"send", "a0", "a0", "a1", "urise", amt.String()})
 			}
 		}
-		setVal(first)
-		h.exec([]string{"nvDelegate", "a0", "a0", "1", "urise", strconv.FormatInt(1+int64(r.N(1000)), 10)})
+		h.exec([]string{"nvDelegate", "a0", "a0", first, "urise", strconv.FormatInt(1+int64(r.N(1000)), 10)})
 		// both matured
 		blockTo(t2.Add(lkUT).Add(2 * time.Second))
 		blockTo(c.Time.Add(time.Second))
